@@ -17,6 +17,9 @@ Case kinds (all JSON-able, self-contained):
   alias_history  one params dictionary object used 2..4 times (factories, setter, coefficient-only sites on its
            nested dictionary) and first.probe_params fed into further models: after every step every model built so
            far carries the dictionary's meaning, and later uses give the first use's result
+  fit_history  one live DirectPtychography object on a synthetic vBF stack (images displaced exactly by the model
+           shifts) driven through fit->fit / grid_search->fit / optimize->fit: every cross-correlation fit returns the
+           generating values (TOL_E2E)
   fit      shifts of {C10, C12, phi12, rotation} on a bright-field pixel set (discs, annuli, half discs, half annuli,
            wedges, random subsets; mostly not point-symmetric and off-axis), from _return_lateral_shifts or from the
            harness's float64 model -> fit_aberrations_from_shifts returns the generators and refits the field
